@@ -84,6 +84,23 @@ def cell_of(d):
 def check_case(case):
     content = dec_content(case['content'])
     kw = dict(case['kw'])
+    if case.get('fn') == 'make_sequence':
+        # "in every symbol": the symbols of a Structured Append sequence, too
+        try:
+            seq = call(lambda: list(segno.make_sequence(content, **kw)))
+        except Refused:
+            return Outcome((), ('refused',), False, True)
+        except Crash as ex:
+            return Outcome([Dev('C13/crash-' + ex.key, str(ex))], ('crash',), True)
+        devs, counters = [], {}
+        for qr in seq:
+            d, dd = decode_symbol('C13', qr)
+            devs += dd
+            if d is not None:
+                devs += tail_devs('C13', d)
+                key = 'cell:SA-' + cell_of(d)
+                counters[key] = counters.get(key, 0) + 1
+        return Outcome(devs, ['sequence', 'class-QR'], True, counters=counters)
     try:
         qr = call(getattr(segno, case.get('fn', 'make')), content, **kw)
     except Refused:
@@ -140,8 +157,23 @@ def steered(tier, seed):
     return cases
 
 
+def sequence_cases(tier):
+    cases = []
+    for unit in ('1234567890', 'ABC DEF$%', 'abcdefgh'):
+        for n in range(2, 100 if tier == 'quick' else 600):
+            text = (unit * (n // len(unit) + 1))[:n]
+            for ci, kw in enumerate(({'version': 1}, {'version': 1, 'boost_error': False}, {'symbol_count': 2}, {'symbol_count': 3, 'boost_error': False},
+                                     {'version': 2, 'error': 'Q'}, {'symbol_count': 7, 'error': 'M'})):
+                if 'version' in kw and n > 150:
+                    continue  # keeps clear of the 16 symbol limit (known finding K3 of C08)
+                if (n + ci) % 2 and tier == 'quick' and n > 50:
+                    continue
+                cases.append({'fn': 'make_sequence', 'content': enc_content(text), 'kw': dict(kw, mask=ci)})
+    return cases
+
+
 def required_labels(tier):
-    return ['class-QR', 'class-M1', 'class-M2', 'class-M3', 'class-M4']
+    return ['sequence', 'class-QR', 'class-M1', 'class-M2', 'class-M3', 'class-M4']
 
 
 def phases(tier, seed):
@@ -149,5 +181,7 @@ def phases(tier, seed):
     return [
         Enum('steered', lambda: steered(tier, seed), exhaustive=False,
              note='lengths around the capacity of every listed (version, level, mode) and two-part mixes'),
+        Enum('sequences', lambda: sequence_cases(tier), exhaustive=False,
+             note='every symbol of Structured Append sequences (lengths 2..99 / ..599 x 3 modes x 6 option sets); cells are counted as SA-...'),
         Search('generated', gens.make_cases(big=0.05), n),
     ]
